@@ -24,6 +24,10 @@ for ln in t.splitlines():
         lines.append(ln)
 (V / 'lean/ReplicatModel.lean').write_text('\n'.join(lines) + '\n')
 subprocess.run(['git', '-C', str(V), 'checkout', '--ours', 'lean/ReplicatModel/Generated.lean'], check=False)
+un = subprocess.run(['git', '-C', str(V), 'diff', '--name-only', '--diff-filter=U'], capture_output=True, text=True).stdout.split()
+for f in un:
+    if f.startswith('lean/Driver/') or f.startswith('harness/impl/__init__'):
+        subprocess.run(['git', '-C', str(V), 'checkout', '--theirs', f], check=True)   # the branch owns its handler; main only had a stub
 subprocess.run([sys.executable, str(V / 'tools/fix_driver_ns.py')], check=True)
 subprocess.run(['git', '-C', str(V), 'add', 'lean/Driver'], check=False)
 subprocess.run([sys.executable, str(V / 'tools/extract.py')], check=True)
